@@ -119,9 +119,16 @@ where
             //   "Messages carried by UDP are restricted to 512 bytes (not
             //    counting the IP or UDP headers).  Longer messages are
             //    truncated and the TC bit is set in the header."
-            let max_response_size = ctx
-                .max_response_size_hint()
-                .unwrap_or(MINIMUM_RESPONSE_BYTE_LEN);
+            //
+            // https://datatracker.ietf.org/doc/html/rfc6891#section-6.2.3
+            //   Only a requestor that sent an OPT record has told us that it
+            //   accepts more than that.
+            let max_response_size = match request.message().opt() {
+                None => MINIMUM_RESPONSE_BYTE_LEN,
+                Some(_) => ctx
+                    .max_response_size_hint()
+                    .unwrap_or(MINIMUM_RESPONSE_BYTE_LEN),
+            };
             let max_response_size = max_response_size as usize;
             let response_len = response.as_slice().len();
 
